@@ -349,10 +349,29 @@ fn run_load_sequences(cx: &mut CaseCx, _case: &Value) {
           Err(p) => cx.viol("C15/load-panicked", p, d()),
           Ok(None) => cx.count("variants_refused", 1),
           Ok(Some(re)) => {
-            // bincode ignores trailing bytes (a smaller entry count leaves some): an accepted variant must
-            // re-serialise to its own bytes or a prefix of them - never to anything else
-            if !b2.starts_with(&re) {
-              cx.viol("C15/load-depends-on-history", format!("a {} that differs from the previously loaded one in byte {} was loaded as {} (serialize(load(b)) is not a prefix of b)", what, off, if re == *base { "the PREVIOUS value" } else { "something else" }), d());
+            // what the variant's OWN bytes say, by an independent reading of the layout (entries may come in
+            // any order and may repeat; trailing bytes are ignored): base | n | (tag, point)* -> sorted map
+            let expect: Option<Vec<u8>> = if is_pk {
+              (|| {
+                let n = u64::from_le_bytes(b2.get(32..40)?.try_into().ok()?) as usize;
+                let mut m: std::collections::BTreeMap<u8, Vec<u8>> = std::collections::BTreeMap::new();
+                for i in 0..n {
+                  let at = 40 + 33 * i;
+                  m.insert(*b2.get(at)?, b2.get(at + 1..at + 33)?.to_vec());
+                }
+                let mut out = b2[..32].to_vec();
+                out.extend_from_slice(&(m.len() as u64).to_le_bytes());
+                for (k, v) in m {
+                  out.push(k);
+                  out.extend_from_slice(&v);
+                }
+                Some(out)
+              })()
+            } else {
+              Some(b2.clone())
+            };
+            if Some(&re) != expect.as_ref() {
+              cx.viol("C15/load-depends-on-history", format!("a {} that differs from the previously loaded one in byte {} was loaded as {} (it does not re-serialise to what its own bytes say)", what, off, if re == *base { "the PREVIOUS value" } else { "something else" }), d());
               return;
             }
             cx.count("variants_loaded_faithfully", 1);
@@ -489,7 +508,7 @@ pub fn spec() -> PropSpec {
       },
       Check {
         name: "load-sequences",
-        rule: "history on one thread: load(valid), load(variant), load(valid) for EVERY single-byte variant (3 faults per offset) of a public key and of a proof: the valid one always loads to itself, an accepted variant re-serialises to its own bytes or a prefix of them (bincode ignores trailing bytes), never to a previously loaded value; the neutral element, the base point and an ordinary point survive the JSON forms of Point and Evaluation",
+        rule: "history on one thread: load(valid), load(variant), load(valid) for EVERY single-byte variant (3 faults per offset) of a public key and of a proof: the valid one always loads to itself, an accepted variant re-serialises to what an independent reading of its own bytes gives (entries in any order, trailing bytes ignored), never to a previously loaded value; the neutral element, the base point and an ordinary point survive the JSON forms of Point and Evaluation",
         gen: |_| vec![json!({})],
         run: run_load_sequences,
         min_counts: &[("variants_refused", 10), ("variants_loaded_faithfully", 100), ("special_points_roundtrip", 6)],
